@@ -119,3 +119,66 @@ from_rng_default!(rc_from_rng_xoshiro256plus, rc_try_from_rng_xoshiro256plus, ra
 from_rng_default!(rc_from_rng_xoshiro256starstar, rc_try_from_rng_xoshiro256starstar, rand_xoshiro::Xoshiro256StarStar, 32, crate::id);
 from_rng_default!(rc_from_rng_xoshiro512plusplus, rc_try_from_rng_xoshiro512plusplus, rand_xoshiro::Xoshiro512PlusPlus, 64, rand_xoshiro::Seed512);
 from_rng_default!(rc_from_rng_xoshiro512starstar, rc_try_from_rng_xoshiro512starstar, rand_xoshiro::Xoshiro512StarStar, 64, rand_xoshiro::Seed512);
+
+// ---- C08 on the seeding routes that draw from a source: whatever the constructor calls on the source (fill_bytes or word draws -
+// the source below serves all of them from ONE little-endian byte stream), an all-zero block never yields the zero state but the
+// documented replacement, and every other block is used verbatim.  Kept apart from the C09 harnesses above, which also pin down
+// *how* the source is consumed: a constructor that draws words instead of bytes violates C09, not C08.
+pub struct LeSource { pub bytes: [u8; 64], pub pos: usize, pub fail: bool, pub err: SrcErr }
+impl LeSource {
+    pub fn new() -> Self { LeSource { bytes: kani::any(), pos: 0, fail: false, err: SrcErr(0) } }
+    fn take(&mut self, dest: &mut [u8]) {
+        let n = dest.len();
+        assert!(self.pos + n <= 64);       // one seed's worth: a constructor that draws more fails here
+        dest.copy_from_slice(&self.bytes[self.pos..self.pos + n]);
+        self.pos += n;
+    }
+}
+impl RngCore for LeSource {
+    fn next_u32(&mut self) -> u32 { let mut b = [0u8; 4]; self.take(&mut b); u32::from_le_bytes(b) }
+    fn next_u64(&mut self) -> u64 { let mut b = [0u8; 8]; self.take(&mut b); u64::from_le_bytes(b) }
+    fn fill_bytes(&mut self, dest: &mut [u8]) { self.take(dest) }
+}
+pub struct TryLeSource(pub LeSource);
+impl TryRngCore for TryLeSource {
+    type Error = SrcErr;
+    fn try_next_u32(&mut self) -> Result<u32, SrcErr> { Ok(self.0.next_u32()) }
+    fn try_next_u64(&mut self) -> Result<u64, SrcErr> { Ok(self.0.next_u64()) }
+    fn try_fill_bytes(&mut self, dest: &mut [u8]) -> Result<(), SrcErr> { self.0.fill_bytes(dest); Ok(()) }
+}
+macro_rules! zero_block {
+    ($name:ident, $tname:ident, $ty:ty, $n:expr, $mk:expr) => {
+        #[kani::proof]
+        #[kani::unwind(66)]
+        fn $name() {
+            let mut src = LeSource::new();
+            let g = <$ty>::from_rng(&mut src);
+            let mut seed = [0u8; $n];
+            seed.copy_from_slice(&src.bytes[..$n]);
+            if seed == [0u8; $n] { assert!(g == <$ty>::seed_from_u64(0)); } else { assert!(g == <$ty>::from_seed($mk(seed))); }
+        }
+        #[kani::proof]
+        #[kani::unwind(66)]
+        fn $tname() {
+            let mut src = TryLeSource(LeSource::new());
+            let g = <$ty>::try_from_rng(&mut src).unwrap();
+            let mut seed = [0u8; $n];
+            seed.copy_from_slice(&src.0.bytes[..$n]);
+            if seed == [0u8; $n] { assert!(g == <$ty>::seed_from_u64(0)); } else { assert!(g == <$ty>::from_seed($mk(seed))); }
+        }
+    };
+}
+zero_block!(rc_zero_from_rng_xoroshiro64star, rc_zero_try_from_rng_xoroshiro64star, rand_xoshiro::Xoroshiro64Star, 8, crate::id);
+zero_block!(rc_zero_from_rng_xoroshiro64starstar, rc_zero_try_from_rng_xoroshiro64starstar, rand_xoshiro::Xoroshiro64StarStar, 8, crate::id);
+zero_block!(rc_zero_from_rng_xoroshiro128plus, rc_zero_try_from_rng_xoroshiro128plus, rand_xoshiro::Xoroshiro128Plus, 16, crate::id);
+zero_block!(rc_zero_from_rng_xoroshiro128plusplus, rc_zero_try_from_rng_xoroshiro128plusplus, rand_xoshiro::Xoroshiro128PlusPlus, 16, crate::id);
+zero_block!(rc_zero_from_rng_xoroshiro128starstar, rc_zero_try_from_rng_xoroshiro128starstar, rand_xoshiro::Xoroshiro128StarStar, 16, crate::id);
+zero_block!(rc_zero_from_rng_xoshiro128plus, rc_zero_try_from_rng_xoshiro128plus, rand_xoshiro::Xoshiro128Plus, 16, crate::id);
+zero_block!(rc_zero_from_rng_xoshiro128plusplus, rc_zero_try_from_rng_xoshiro128plusplus, rand_xoshiro::Xoshiro128PlusPlus, 16, crate::id);
+zero_block!(rc_zero_from_rng_xoshiro128starstar, rc_zero_try_from_rng_xoshiro128starstar, rand_xoshiro::Xoshiro128StarStar, 16, crate::id);
+zero_block!(rc_zero_from_rng_xoshiro256plus, rc_zero_try_from_rng_xoshiro256plus, rand_xoshiro::Xoshiro256Plus, 32, crate::id);
+zero_block!(rc_zero_from_rng_xoshiro256plusplus, rc_zero_try_from_rng_xoshiro256plusplus, rand_xoshiro::Xoshiro256PlusPlus, 32, crate::id);
+zero_block!(rc_zero_from_rng_xoshiro256starstar, rc_zero_try_from_rng_xoshiro256starstar, rand_xoshiro::Xoshiro256StarStar, 32, crate::id);
+zero_block!(rc_zero_from_rng_xoshiro512plus, rc_zero_try_from_rng_xoshiro512plus, rand_xoshiro::Xoshiro512Plus, 64, rand_xoshiro::Seed512);
+zero_block!(rc_zero_from_rng_xoshiro512plusplus, rc_zero_try_from_rng_xoshiro512plusplus, rand_xoshiro::Xoshiro512PlusPlus, 64, rand_xoshiro::Seed512);
+zero_block!(rc_zero_from_rng_xoshiro512starstar, rc_zero_try_from_rng_xoshiro512starstar, rand_xoshiro::Xoshiro512StarStar, 64, rand_xoshiro::Seed512);
